@@ -5,6 +5,7 @@ go 1.24.2
 require (
 	github.com/CorentinB/warc v0.8.76
 	github.com/gabriel-vasile/mimetype v1.4.8
+	github.com/gobwas/ws v1.4.0
 	github.com/grafov/m3u8 v0.12.1
 	github.com/internetarchive/Zeno v0.0.0
 	github.com/ncruces/go-sqlite3 v0.25.0
@@ -29,7 +30,6 @@ require (
 	github.com/go-viper/mapstructure/v2 v2.2.1 // indirect
 	github.com/gobwas/httphead v0.1.0 // indirect
 	github.com/gobwas/pool v0.2.1 // indirect
-	github.com/gobwas/ws v1.4.0 // indirect
 	github.com/golang/snappy v0.0.4 // indirect
 	github.com/google/uuid v1.6.0 // indirect
 	github.com/hashicorp/consul/api v1.32.0 // indirect
